@@ -2,7 +2,10 @@
 //! positional-stream / unique-id oracles, descriptor and task accounting, fault injection.
 pub mod c01;
 pub mod c02;
+pub mod c06;
 pub mod c08;
+pub mod c10;
+pub mod c11;
 pub mod c15;
 pub mod c16;
 pub mod chopper;
